@@ -153,7 +153,9 @@ def run(ctx):
                 key = "hs:inv:%s" % inv
             elif ev.get("ev") == "hsResult":
                 key = "hs:result"
-                if ev.get("cErr") == "" and ev.get("sErr") == "" and \
+                if ev.get("c2sGot", 0) not in (0, 1) or ev.get("s2cGot", 0) not in (0, 1):
+                    key = "hs:stale-data-delivered-as-fresh"
+                elif ev.get("cErr") == "" and ev.get("sErr") == "" and \
                         ev.get("cN") != ev.get("sN"):
                     key = "hs:window-mismatch"
                 elif ev.get("cErr") == "" and ev.get("sErr") == "":
